@@ -115,7 +115,9 @@ fn parse_prefix(name: &str, fragment: &yaml::Yaml) -> Result<Option<Prefix>, Err
                     }
                 }
             }
-            let prefix = prefix.unwrap();
+            let prefix = prefix.ok_or_else(|| {
+                Error::InvalidConfig(format!("{} entries need a prefix", name))
+            })?;
             if prefix.prefixlen > 128 {
                 return Err(Error::InvalidConfig(format!(
                     "{} prefix length {} is longer than an IPv6 address",
